@@ -34,7 +34,7 @@ def plan(tier, seed):
     # the two whole-list shards use every type class in one process, in opposite orders: a validation table cached on a
     # base class by whichever type is used first shows up in one of them
     return [{'slice': i, 'cost': 1} for i in range(NSHARDS)] + [{'slice': 'no-text', 'cost': 1},
-                                                              {'slice': 'all-sorted', 'cost': 2}, {'slice': 'all-reversed', 'cost': 2}]
+                                                              {'slice': 'all-sorted', 'cost': 2, 'fresh_process': True}, {'slice': 'all-reversed', 'cost': 2, 'fresh_process': True}]
 
 
 def all_types():
